@@ -435,7 +435,7 @@ static void do_vec(long n)
     begin("vecbig", n);
     sig = sigsetjmp(jb, 1);
     if (sig == 0) {
-        long c1, cap1, kept1, cap2, kept2, d2, size2, cap3, kept3, sorted = 1, d3, size4, atend;
+        long c1, cap1, kept1, cap2, kept2, d2, size2, cap3, kept3, sorted = 1, d3, size4, atend, capE, capF, reuse = 1;
         cpu_limit(150);
         nctor = ndtor = xbad = 0;
         cstl_vector_init_complex(&v, sizeof(struct v12), vctor, vdtor, &priv_token);
@@ -452,9 +452,19 @@ static void do_vec(long n)
         cstl_vector_sort(&v, vcmp, &priv_token);
         for (i = 1; i < n / 2; i++) if (((struct v12 *)cstl_vector_at(&v, (size_t)i - 1))->tag > ((struct v12 *)cstl_vector_at(&v, (size_t)i))->tag) sorted = 0;
         { int s2 = sigsetjmp(jb2, 1); atend = 0; if (s2 == 0) { use2 = 1; (void)cstl_vector_at(&v, (size_t)(n / 2)); use2 = 0; } else atend = s2 == SIGABRT; }
+        /* emptied but still holding its large storage: a reserve the allocator cannot satisfy changes nothing, and the
+         * vector goes on working in the storage it has */
+        cstl_vector_resize(&v, 0);
+        capE = (long)cstl_vector_capacity(&v);
+        cstl_vector_reserve(&v, (size_t)-1 / sizeof(struct v12) / 2);
+        capF = (long)cstl_vector_capacity(&v);
+        cstl_vector_resize(&v, 8);
+        for (i = 0; i < 8; i++) ((struct v12 *)cstl_vector_at(&v, (size_t)i))->tag = (int)(i * 7 % 1000003);
+        if (!tags_ok(&v, 8) || cstl_vector_data(&v) == NULL) reuse = 0;
         cstl_vector_clear(&v);
         d3 = ndtor; size4 = (long)cstl_vector_size(&v);
         cpu_limit(0);
+        fprintf(out, "\"capE\":%ld,\"capF\":%ld,\"reuse\":%s,", capE, capF, reuse ? "true" : "false");
         fprintf(out, "\"ctors\":%ld,\"cap1\":%ld,\"kept1\":%s,\"cap2\":%ld,\"dtors2\":%ld,\"size2\":%ld,\"kept2\":%s,\"cap3\":%ld,\"kept3\":%s,"
                 "\"sorted\":%s,\"atend\":%s,\"dtors\":%ld,\"size4\":%ld,\"xbad\":%ld",
                 c1, cap1, kept1 ? "true" : "false", cap2, d2, size2, kept2 ? "true" : "false", cap3, kept3 ? "true" : "false",
@@ -606,6 +616,42 @@ static void do_hashdup(long n)
     free(hseen);
 }
 
+/* ---- a long life of one small table: n resizes (4 <-> 5 buckets, each worked off by keyed operations), then an element
+ * lands in a bucket that was empty all along, the table shrinks, and everything must still be found, walked and cleared ---- */
+static void do_hashlife(long n)
+{
+    struct cstl_hash H; long i; int sig;
+    fresh_pool(8);
+    hseen = calloc(16, 1);
+    pool[1].v = 0; pool[2].v = 1; pool[3].v = 3; pool[4].v = 2; pool[5].v = 7;
+    begin("hashlife", n);
+    sig = sigsetjmp(jb, 1);
+    if (sig == 0) {
+        long found = 0, vis, once, size, cleared, overdue = 0;
+        cpu_limit(150);
+        cstl_hash_init(&H, offsetof(struct el, xn));
+        cstl_hash_resize(&H, 4, hid);
+        cstl_hash_insert(&H, 0, &pool[1]); cstl_hash_insert(&H, 1, &pool[2]);
+        for (i = 0; i < n; i++) {
+            int k;
+            cstl_hash_resize(&H, (i & 1) ? 4 : 5, NULL);
+            for (k = 0; k < 6; k++) (void)cstl_hash_find(&H, (size_t)(k & 1), NULL, NULL);      /* more keyed operations than buckets */
+            if (H.bucket.rh.hash != NULL) overdue++;
+        }
+        cstl_hash_insert(&H, 3, &pool[3]); cstl_hash_insert(&H, 2, &pool[4]); cstl_hash_insert(&H, 7, &pool[5]);
+        cstl_hash_resize(&H, 2, NULL);
+        for (i = 1; i <= 5; i++) if (cstl_hash_find(&H, (size_t)pool[i].v, NULL, NULL) == &pool[i]) found++;
+        hvis = 0; hvis_once = 1; cstl_hash_foreach_const(&H, (cstl_const_visit_func_t *)hvisit, NULL); vis = hvis; once = hvis_once;
+        size = (long)cstl_hash_size(&H);
+        memset(hseen, 0, 16); hvis = 0;
+        cstl_hash_clear(&H, (cstl_xtor_func_t *)hvisit); cleared = hvis;
+        cpu_limit(0);
+        fprintf(out, "\"found\":%ld,\"visited\":%ld,\"once\":%s,\"size\":%ld,\"cleared\":%ld,\"overdue\":%ld", found, vis, once ? "true" : "false", size, cleared, overdue);
+        end_ok();
+    } else { cpu_limit(0); end_sig(sig); }
+    free(hseen);
+}
+
 /* ---- a vector of more than 2^32 one-byte elements, destructor only (the storage is never touched) ---- */
 static unsigned char *hv_base; static long hv_n, hv_bad; static unsigned long hv_lo, hv_hi;
 static void hv_dtor(void *e, void *p) { unsigned long off = (unsigned long)((unsigned char *)e - hv_base); (void)p; hv_n++; if (off < hv_lo || off >= hv_hi) hv_bad++; }
@@ -658,6 +704,7 @@ int main(int argc, char **argv)
         else if (!strncmp(argv[a], "rb", 2)) do_tree(n, 1);
         else if (!strncmp(argv[a], "bst", 3)) do_tree(n, 0);
         else if (!strncmp(argv[a], "map", 3)) do_map(n);
+        else if (!strncmp(argv[a], "hashlife", 8)) do_hashlife(n);
         else if (!strncmp(argv[a], "hash", 4) && strncmp(argv[a], "hashdup", 7)) do_hash(n);
         else if (!strncmp(argv[a], "sort", 4)) do_sort(n);
         else if (!strncmp(argv[a], "vechuge", 7)) do_vechuge(n);
